@@ -135,14 +135,15 @@ CHECKS = {
         ] + parruns(["VxSoup_Start2", "VxSoup_Select2", "VxSoup_From2", "VxSoup_Where2"], ["VxSoup_Start3", "VxSoup_Select3", "VxSoup_From3", "VxSoup_Where3"], ["C14.tree_visits"]),
     },
     "C15": {
-        "bounds": {"quick": "statements generated as parser tokens from (nesting context) x (clause features): 15 contexts (plain, derived table, EXISTS, scalar comparison, IN sub-query, CTE, UNION ALL arm, EXCEPT, joined derived table, scalar select item, INSERT..SELECT, UPDATE/DELETE..WHERE EXISTS, UPDATE SET = (sub-query), WITH..INSERT) x 21 clause features of the inner SELECT (qualified column, function, column alias, nested functions, window PARTITION/ORDER, table alias, schema qualifier, second FROM item, JOIN ON, LEFT JOIN with aliases, JOIN USING, two joins (synthetic left name), CROSS JOIN, WHERE with string literal / function / IS NULL, GROUP BY..HAVING, ORDER BY column / function, DISTINCT..LIMIT); every pair of features on a plain SELECT; 7 DML shapes (INSERT VALUES / RETURNING / ON CONFLICT, UPDATE, DELETE, MERGE with UPDATE+INSERT, MERGE with DELETE). Every name position holds a finite-domain symbolic name from a two-name pool shared between tables and aliases (columns: {ca, ta}); the solver decides which positions coincide",
-                   "thorough": "additionally every pair of nesting contexts (15 x 10) around a plain SELECT"},
+        "bounds": {"quick": "statements generated as parser tokens from (nesting context) x (clause features): 17 contexts (plain, derived table, derived table as first of several FROM items, derived table followed by a join, EXISTS, scalar comparison, IN sub-query, CTE, UNION ALL arm, EXCEPT, joined derived table, scalar select item, INSERT..SELECT, UPDATE/DELETE..WHERE EXISTS, UPDATE SET = (sub-query), WITH..INSERT) x 21 clause features of the inner SELECT (qualified column, function, column alias, nested functions, window PARTITION/ORDER, table alias, schema qualifier, second FROM item, JOIN ON, LEFT JOIN with aliases, JOIN USING, two joins (synthetic left name), CROSS JOIN, WHERE with string literal / function / IS NULL, GROUP BY..HAVING, ORDER BY column / function, DISTINCT..LIMIT); every pair of features on a plain SELECT; 7 DML shapes (INSERT VALUES / RETURNING / ON CONFLICT, UPDATE, DELETE, MERGE with UPDATE+INSERT, MERGE with DELETE); k = 0..59 levels of nested derived tables with a distinct (alternately schema-qualified) table, column and function per level. Every name position holds a finite-domain symbolic name from a two-name pool shared between tables and aliases (columns: {ca, ta}); the solver decides which positions coincide",
+                   "thorough": "additionally every pair of nesting contexts (17 x 12) around a plain SELECT"},
         "outside": "layout independence (the harness starts from tokens; whitespace/comment insensitivity of the token stream is the tokenizer's, C04/C05); constructs the package documents as limited (CASE, CAST, BETWEEN, recursive CTEs); TRUNCATE/DDL targets; MERGE with a sub-query source (rejected by the parser); pools larger than two names; three or more features at once",
         "assumptions": ["the plain ExtractTables variant may report a schema-qualified table either as written (sa.ta) or by its last part; the qualified variant must preserve the qualifier", "a CTE's defining name is not a table position; a FROM item naming it is"],
         "runs": [
             {"pkg": "pkg/gosqlx", "harness": "VxC15_DML", "expect_asserts": ["C15.tables_complete", "C15.columns_complete", "C15.functions_complete"]},
             {"pkg": "pkg/gosqlx", "harness": "VxC15_Pair", "expect_asserts": ["C15.tables_no_extra", "C15.qtables_complete", "C15.qcolumns_no_extra", "C15.functions_no_extra", "C15.seen_parsed"]},
             {"pkg": "pkg/gosqlx", "harness": "VxC15_Ctx1", "expect_asserts": ["C15.tables_complete", "C15.columns_no_extra", "C15.seen_parsed"]},
+            {"pkg": "pkg/gosqlx", "harness": "VxC15_Deep", "expect_asserts": ["C15.tables_complete", "C15.functions_complete"]},
             {"pkg": "pkg/gosqlx", "harness": "VxC15_Ctx2", "tiers": ["thorough"], "expect_asserts": ["C15.tables_complete"]},
         ],
     },
@@ -165,12 +166,13 @@ CHECKS = {
         ],
     },
     "C16": {
-        "bounds": {"quick": "7 payload families (tautology with numbers, with symbolic two-letter string contents, with identifiers; SLEEP / PG_SLEEP calls, LOAD_FILE, BENCHMARK(..., LOAD_FILE(...)) with symbolic letter case) x 10 positions the scanner covers (WHERE, redundant parentheses, AND / OR / NOT operands, HAVING, UPDATE and DELETE WHERE, UNION arm, comment/whitespace layout) and x 9 nested positions of the property's list (known finding); severity threshold: 6 statements x {LOW, MEDIUM, HIGH, CRITICAL, invalid}: exact filtering, counts, repeatability, tree untouched (write monitor)",
+        "bounds": {"quick": "7 payload families (tautology with numbers, with symbolic two-letter string contents, with identifiers; SLEEP / PG_SLEEP calls, LOAD_FILE, BENCHMARK(..., LOAD_FILE(...)) with symbolic letter case) x 10 positions the scanner covers (WHERE, redundant parentheses, AND / OR / NOT operands, HAVING, UPDATE and DELETE WHERE, UNION arm, comment/whitespace layout) and x 9 nested positions of the property's list (known finding); operand closure: each payload as operand of every composition of two wrappers from {itself, parentheses, AND left/right, OR left/right, NOT} in 8 statement frames (WHERE, HAVING, UPDATE, DELETE, UNION arm, lower-case UNION ALL and EXCEPT, comment layout), the scanned tree under the write monitor; severity threshold: 6 statements x {LOW, MEDIUM, HIGH, CRITICAL, invalid}: exact filtering, counts, repeatability, tree untouched (write monitor)",
                    "thorough": "same (the space is finite and explored completely)"},
         "outside": "ScanSQL's regular-expression detection on symbolic text (regex engine not encodable; executed on concrete renderings only); payload spellings beyond letter case and the listed layouts",
         "assumptions": ["trees are produced by the real parser from the assembled text"],
         "runs": [
             {"pkg": "pkg/sql/security", "harness": "VxC16_Closure", "expect_asserts": ["C16.reported"]},
+            {"pkg": "pkg/sql/security", "harness": "VxC16_Operands", "expect_asserts": ["C16.reported"], "engine_only_asserts": ["C16.tree_unchanged"]},
             {"pkg": "pkg/sql/security", "harness": "VxC16_ClosureBlind", "expect_asserts": ["C16.reported_nested"]},
             {"pkg": "pkg/sql/security", "harness": "VxC16_Threshold", "expect_asserts": ["C16.threshold_exact", "C16.counts", "C16.repeatable"]},
         ],
@@ -230,11 +232,12 @@ CHECKS = {
         ],
     },
     "C11": {
-        "bounds": {"quick": "Parser.ParseContext under a context that turns done at its k-th poll (k symbolic 0..63, both Canceled and DeadlineExceeded, arbitrary start depth 0..49): a 70-token nested statement (CTE, IN list, CASE, nested function calls, JOIN ON, BETWEEN, UNION, EXISTS sub-query), an INSERT ... RETURNING with function calls, and every <= 2-token continuation of SELECT / SELECT a FROM t WHERE over the 45-row expression table",
+        "bounds": {"quick": "Parser.ParseContext under a context that turns done at its k-th poll (k symbolic 0..63, both Canceled and DeadlineExceeded, arbitrary start depth 0..49): a 70-token nested statement (CTE, IN list, CASE, nested function calls, JOIN ON, BETWEEN, UNION, EXISTS sub-query), an INSERT ... RETURNING with function calls, and every <= 2-token continuation of SELECT / SELECT a FROM t WHERE over the 45-row expression table; TokenizeContext (poll interval instantiated at 2) on a 9-token input under a cause-carrying context cancelled at its k-th poll, k = 0..7: errors.Is with the context's error, no partial tokens, at most one further poll, uncancelled result equals Tokenize",
                    "thorough": "<= 3-token continuations"},
-        "outside": "TokenizeContext polling (every 100 tokens: not reachable within the byte bounds; its pre-check is covered by VxC11_Tok); gosqlx.ParseWithContext adds only tokenisation in front of ParseContext",
+        "outside": "the real poll interval of TokenizeContext (100 tokens; the harness instantiates the current source at 2 so the polls are reachable); gosqlx.ParseWithContext adds only tokenisation in front of ParseContext",
         "assumptions": ["the context is monotone: once done it stays done with the same error"],
-        "runs": parruns(["VxC11_Nested", "VxC11_Returning", "VxC11_Where2", "VxC11_Select2"], ["VxC11_Nested", "VxC11_Returning", "VxC11_Where3", "VxC11_Select3"], ["C11.is_ctx_err", "C11.same_tree", "C11.residue_depth"], extra={"generic": ["pool_double_put"], "engine_only_asserts": ["pool_double_put"]}),
+        "runs": parruns(["VxC11_Nested", "VxC11_Returning", "VxC11_Where2", "VxC11_Select2"], ["VxC11_Nested", "VxC11_Returning", "VxC11_Where3", "VxC11_Select3"], ["C11.is_ctx_err", "C11.same_tree", "C11.residue_depth"], extra={"generic": ["pool_double_put"], "engine_only_asserts": ["pool_double_put"]}) + [
+            {"pkg": TOK, "harness": "VxC11_Tok", "instantiate": {"file": "pkg/sql/tokenizer/tokenizer.go", "regex": r"len\(tokens\)%100 == 0", "repl": "len(tokens)%2 == 0"}, "expect_asserts": ["C11.tok_is_ctx_err", "C11.tok_no_partial", "C11.tok_same"]}],
     },
     "C12": {
         "bounds": {"quick": "token soup: every EOF-terminated stream of <= 3 symbolic tokens (150-row table) at statement start and after 'SELECT a FROM t ;' — termination (unwinding budget) and errors-iff-strict-fails; scripts S1;S2 where each Si is one of 8 valid statements (SELECT x2, SHOW - whose first token is not a synchronisation keyword -, DELETE, DROP, TRUNCATE, CREATE TABLE, INSERT) under a symbolic corruption (none / delete / duplicate / replace by one of 12 tokens / truncate, position symbolic), at most one corrupted; twins: the same corrupted statement twice, optionally around a good one: two errors, exactly the good statements, no nil entry",
@@ -252,13 +255,14 @@ CHECKS = {
             {"pkg": TOK, "harness": "VxC08_TokReuse4", "tiers": ["thorough"], "expect_asserts": ["C13.tok_reproducible", "C13.tok_same_location"]}],
     },
     "C04": {
-        "bounds": {"quick": "all byte strings of length <= 2 over all 256 byte values; length <= 3 over the 24-symbol lexical alphabet; length <= 5 over the comment alphabet {- / * \\n a space}; word slots: 13 first words (the ten multi-word keyword starts in mixed case, an identifier, SELECT, LEFTY) x <= 2 symbolic separator bytes over {space \\n - ,} x 10 second words (BY, JOIN, SETS, OUTER, x, BYE, 1, none) x <= 1 separator byte x 3 third words",
+        "bounds": {"quick": "all byte strings of length <= 2 over all 256 byte values; length <= 3 over the 24-symbol lexical alphabet; length <= 5 over the comment alphabet {- / * \\n a space}; word slots: 13 first words (the ten multi-word keyword starts in mixed case, an identifier, SELECT, LEFTY) x <= 2 symbolic separator bytes over {space \\n - ,} x 10 second words (BY, JOIN, SETS, OUTER, x, BYE, 1, none) x <= 1 separator byte x 3 third words; keyword table: every entry of the tokenizer's keyword table (all lengths) in upper, lower, alternating and last-letter-lower case, alone and between identifiers, keeps its kind and its spelling",
                    "thorough": "length <= 3 over all byte values; length <= 4 over the lexical alphabet; length <= 7 over the comment alphabet"},
         "outside": "longer inputs; code points above U+00FF other than the representative set of DESIGN.md 5.3; keywords of 5+ letters with symbolic letters (multi-word keywords are covered by the word-slot harness with concrete spellings)",
         "assumptions": ["reference lexer (harness/pkg/sql/tokenizer/reflex.go) is the oracle for the core lexical grammar; it answers don't-know elsewhere",
                         "unicode predicates on symbolic runes above U+00FF are restricted to a representative set (stated bound)",
                         "time.Now/metrics are stubs; sync.Pool is a LIFO stack"],
-        "runs": tokruns(["C04.eof_last", "C04.kind", "C04.value"], ["VxC04_All2", "VxC04_Lex3", "VxC04_Cmt5", "VxC04_Words2"], ["VxC04_All3", "VxC04_Lex4", "VxC04_Cmt7", "VxC04_Words2"]),
+        "runs": tokruns(["C04.eof_last", "C04.kind", "C04.value"], ["VxC04_All2", "VxC04_Lex3", "VxC04_Cmt5", "VxC04_Words2"], ["VxC04_All3", "VxC04_Lex4", "VxC04_Cmt7", "VxC04_Words2"]) + [
+            {"pkg": TOK, "harness": "VxC04_Keywords", "expect_asserts": ["C04.keyword_kind", "C04.keyword_value"]}],
     },
     "C05": {
         "bounds": {"quick": "token/comment positions for all byte strings of length <= 2 (all bytes), <= 3 (lexical alphabet), <= 5 (comment alphabet), <= 4 (position alphabet {a 1 ' - / * space tab \\n \\r}); the word-slot inputs of C04 (multi-word keywords across spaces and newlines); parser side: the converter's position mapping is index-aligned with the parser tokens and Parser.currentLocation reads the right entry, for every sequence of <= 3 symbolic tokenizer tokens from a 27-row table that includes every multi-word keyword; error blame: every accepted statement of the 47-statement truncation corpus corrupted at every token (cut, deleted, or replaced by one of ) SELECT x ,), dialect symbolic: a located parser error lies at the start of a token, and when its message names the offending token (got X / unexpected token: X) that is the token starting there",
